@@ -20,6 +20,7 @@ from .. import textgen as T
 
 PROP = "C11"
 PROP_V = "theories/props/C11.v"
+MODEL_AREAS = ('front',)
 
 
 def outcome_class(obs):
